@@ -36,7 +36,7 @@ def run(rep, tier, seed):
                 if i == 7000:
                     rep.sample({"family": fam, "vector": json.loads(line)})
         for c in cfgs:
-            replay_vectors(rep, exe, "replay-C02", vec, extra_args=[c], timeout=6000)
+            replay_vectors(rep, exe, "replay-C02", vec, extra_args=[c], timeout=6000, shards=8)
     rep.exhaustive = True
 
 def replay(path):
